@@ -69,7 +69,7 @@ Definition effect_names (e : effect) : list string :=
   match e with
   | EGuard k | EAppend k | ERequire k => [k]
   | EClassSet _ n _ | EInstSet _ n _ | EProbeSet _ n _ | EProbeDel _ n
-  | EGetDefaultSet _ n _ | ERead _ n => [n]
+  | EGetDefaultSet _ n _ | ERead _ n | ETouchPublic n => [n]
   | ECall _ => []
   end.
 Definition script_names (effs : list effect) : list string := concat (map effect_names effs).
@@ -152,6 +152,7 @@ Inductive reffect :=
 | RProbeDel (t : target) (n : N)
 | RGetDefaultSet (t : target) (n : N) (k : vkind)
 | RRead (t : target) (n : N)
+| RTouchPublic (n : N)
 | RCall (f : string).
 
 Definition resolve (e : effect) : reffect :=
@@ -163,6 +164,7 @@ Definition resolve (e : effect) : reffect :=
   | EProbeDel t n => RProbeDel t (nid n)
   | EGetDefaultSet t n k => RGetDefaultSet t (nid n) k
   | ERead t n => RRead t (nid n)
+  | ETouchPublic n => RTouchPublic (nid n)
   | ECall f => RCall f
   end.
 Definition rscripts : list (string * list reffect) := Eval vm_compute in
@@ -407,6 +409,14 @@ Section Interp.
                                 | (x1, RErr e) => (x1, Some e)
                                 | (x1, RVal _ _) => (x1, None)
                                 end) (targets key t) x)
+          | RTouchPublic n =>
+              (* getattr(default_table()[0], n, None) when the table is not the public one: only its effect on
+                 the loader state matters; AttributeError is swallowed by the default *)
+              if table_eqb T Pub then run_effs key T rest x
+              else match GET Pub En n x with
+                   | (x1, RErr AttrErr) | (x1, RVal _ _) => run_effs key T rest x1
+                   | (x1, RErr e) => (x1, Some e)
+                   end
           | RCall f => continue (INIT f T x)
           end
       end.
@@ -491,6 +501,13 @@ Section Interp.
                                | (x1, None) => go r x1
                                | bad => bad
                                end
+              | SLoad :: r => match reg_of g with
+                              | Some rg => match run_init f (r_key rg) Pub x0 with
+                                           | (x1, None) => go r x1
+                                           | bad => bad
+                                           end
+                              | None => (x0, Some OtherErr)
+                              end
               | SSetattr :: r => match setattr f T a n v x0 with
                                  | (x1, None) => go r x1
                                  | bad => bad
